@@ -35,6 +35,7 @@ def serde_attrs(f):
 def run(ctx):
     truncation(ctx)
     derived_refresh(ctx)
+    init_overwrites(ctx)
     # loading runs init() -> validate(): a validator that rejects what its sibling (the borrowed / owned / legacy form of the same
     # data) accepts makes a saved object unreadable — shared with C16-6
     from .common import RuleProxy
@@ -701,3 +702,35 @@ def derived_refresh(ctx):
             ctx.check(ok, R, '%s in %s' % (rf, b.fid), 'refreshed on every Ok path (as init() does on load)',
                       'the refresh is conditional here, but unconditional in %s: a live object and its re-loaded copy can carry different values' % inits, ctx.where(b))
         ctx.check(n >= 1, R, rf + '|used', '%d other function(s) call the refresher' % n, 'nothing but init() calls it: the live object never refreshes this state', None)
+
+
+def init_overwrites(ctx):
+    """C17-10.derived (second half): init() runs after every load, so a serialised field that init() assigns is overwritten on
+    the way in: the loaded object no longer carries what was saved (a step counter reset to its start value, a carried value
+    zeroed).  Decided: no `SerdeAPI::init` body assigns, directly, a field of its own type that is part of the serialised form
+    (fields marked #[serde(skip)] are the ones init() is there to rebuild)."""
+    R = 'C17-10.derived'
+    prog = ctx.prog
+    inv = inventory(ctx)
+    W = inv.writes()
+    n = 0
+    for f, b in sorted(prog.by_id.items()):
+        if not f.endswith('SerdeAPI>::init') or b.test:
+            continue
+        tn = f.split(' as ')[0].lstrip('<')
+        td = prog.typedef(tn)
+        if td is None or td.kind != 'struct':
+            continue
+        n += 1
+        bad = []
+        for fld in td.fields:
+            if not fld.get('name'):
+                continue
+            a = serde_attrs(fld)
+            skipped = any(x == '#[serde(skip)]' or 'skip_deserializing' in x for x in a)
+            for bb, bn, sp, how in W.get((td.qual, fld['name']), []):
+                if bb is b and how.split(':')[0] in ('assign', 'opassign') and not skipped:
+                    bad.append(fld['name'])
+        ctx.check(not bad, R, f + '|overwrites', 'assigns no serialised field of %s' % td.name,
+                  'init() assigns serialised field(s) %s of %s: their saved values are lost on every load' % (sorted(set(bad)), td.name), ctx.where(b))
+    ctx.floor('init bodies of struct types inspected', n, 10)
